@@ -487,6 +487,8 @@ def run_property(prop, tier, jobs, assumptions, level_text, keep=False, only=Non
             return
         n_ok = n_fail = n_reach = n_foreign = 0
         fails = []
+        reached, not_reached = [], []
+        unknown = []
         for res in results:
             desc = res.get("description", "")
             st = res.get("status")
@@ -497,6 +499,9 @@ def run_property(prop, tier, jobs, assumptions, level_text, keep=False, only=Non
             if desc.startswith("REACH:"):
                 if st == "FAILURE":
                     n_reach += 1
+                    reached.append(desc[6:])
+                elif desc.startswith("REACH:OPT:"):
+                    not_reached.append(desc[6:])   # optional witness: legitimately unreachable at some shapes
                 else:
                     inconclusive.append((job, "vacuous: point not reachable: " + desc))
                     ctx.log("VACUOUS", job.name(), desc)
@@ -507,10 +512,15 @@ def run_property(prop, tier, jobs, assumptions, level_text, keep=False, only=Non
                 n_fail += 1
                 fails.append(res)
             else:
-                inconclusive.append((job, "status %s for %s" % (st, desc)))
+                unknown.append((st, desc))   # CBMC 6: not decided because reachable only past a failed (fatal) check
+        if unknown and not fails:
+            inconclusive.append((job, "%d properties with status %s and no failure, e.g. %s" % (len(unknown), unknown[0][0], unknown[0][1])))
+        rec["properties_unknown_after_failure"] = len(unknown)
         rec["properties_proved"] = n_ok
         rec["properties_failed"] = n_fail
         rec["reach_witnesses"] = n_reach
+        rec["reached"] = sorted(set(reached))
+        rec["not_reached_optional"] = sorted(set(not_reached))
         rec["assertions_of_other_properties_skipped"] = n_foreign
         rec["status"] = "ok" if not fails else "failed"
         rec["functions"] = len(u["funcs"]["functions"])
